@@ -26,14 +26,14 @@ DEFAULT_PROFILE = dict(
 def profile(name):
   p = dict(DEFAULT_PROFILE)
   if name == "acyclic":
-    p.update(p_sub2d=0.1, p_func=0.05)
+    p.update(p_sub2d=0.2, p_func=0.05)
   elif name == "ff_heavy":
     p.update(p_reg=0.75, n_wire=(2, 7), p_connect=0.25, p_func=0.05)
   elif name == "big":
     p.update(n_wire=(10, 18), n_out=(2, 4), n_in=(2, 5), p_connect=0.1, p_lambda=0.05,
              max_block_targets=1, p_if=0.9, p_split=0.5, n_child_classes=(0, 1))
   elif name == "shapes":
-    p.update(p_split=0.8, p_struct=0.6, n_structs=(1, 2), p_connect=0.4, n_wire=(3, 7), p_sub2d=0.1, p_func=0.05)
+    p.update(p_split=0.8, p_struct=0.6, n_structs=(1, 2), p_connect=0.4, n_wire=(3, 7), p_sub2d=0.2, p_func=0.05)
   elif name == "translatable":
     p.update(translatable=True, p_big_width=0.0, p_sub2d=0.2)
   elif name == "translatable_yosys":
